@@ -21,6 +21,143 @@ TRANS = {'quick': ['gen/MC_C07cbor_q.cfg', 'gen/MC_C07msgpack_q.cfg', 'gen/MC_C0
 def setup():
     vf.build('c08', ['c08.cpp'])
     vf.tlc_gen('gen/MC_C08', CFG['quick'], timeout=900)
+    vf.build('c08tags', ['c08tags.cpp'])
+    vf.tlc_gen('gen/MC_C08tags', TAGS['quick'], timeout=600)      # (same arguments as tags_family: the cache key includes them)
+
+
+# ---------------------------------------------------------------- "tagged events" family (spec/gen/MC_C08tags.tla, spec/trace/Trace_C08tags.tla, notes/C08tags.md)
+TAGS = {'quick': 'gen/MC_C08tags_q.cfg', 'thorough': 'gen/MC_C08tags_t.cfg'}
+TAGS_DROP = ('k', 'idx', 'err', 'ev')            # not read by the trace spec (ev: the value v is what the events denote)
+TAGS_ENCODERS = ['json', 'jsonpretty', 'cbor', 'cborpacked', 'cborta', 'msgpack', 'ubjson', 'bson']
+
+
+def tags_render(x):
+    """short human rendering of a pushed value: bigint<"12">, epoch_second<-1>, h'0102', ext7<h'01'>, u8[01,02], md-row[1,2]<..>"""
+    k = x[0]
+    if k == 'tagged':
+        return '%s<%s>' % (x[1], tags_render(x[2]))
+    if k == 'tstr':
+        return json.dumps(bytes(x[1]).decode('utf8', 'replace'))
+    if k == 'bstr':
+        return "h'%s'" % bytes(x[1]).hex()
+    if k == 'uint':
+        return str(int.from_bytes(bytes(x[1]), 'big'))
+    if k == 'nint':
+        return str(-1 - int.from_bytes(bytes(x[1]), 'big'))
+    if k in ('f64', 'f32', 'f16'):
+        return '%s:%s' % (k, bytes(x[1]).hex())
+    if k == 'ext':
+        return "ext%d<h'%s'>" % (int.from_bytes(bytes(x[1]), 'big'), bytes(x[2]).hex())
+    if k == 'ta':
+        return '%s[%s]' % (x[1], ','.join(bytes(e).hex() for e in x[2]))
+    if k == 'md':
+        return 'md-%s%s<%s>' % (x[1], json.dumps(x[2]).replace(' ', ''), tags_render(x[3]))
+    if k == 'arr':
+        return '[' + ','.join(tags_render(y) for y in x[1]) + ']'
+    if k == 'map':
+        return '{' + ','.join(tags_render(a) + ':' + tags_render(b) for a, b in x[1]) + '}'
+    return json.dumps(x)
+
+
+def tags_render_ev(ev):
+    out = []
+    for e in ev:
+        if e[0] in ('ba', 'bo'):
+            out.append('%s(%s)' % ('begin_array' if e[0] == 'ba' else 'begin_object', '' if e[1] < 0 else e[1]))
+        elif e[0] == 'key':
+            out.append('key(%s)' % json.dumps(bytes(e[1]).decode('utf8', 'replace')))
+        elif e[0] == 'bmd':
+            out.append('begin_multi_dim(%s,%s)' % (json.dumps(e[2]).replace(' ', ''), e[1]))
+        elif e[0] == 'val':
+            out.append(tags_render(e[1]))
+        else:
+            out.append({'ea': 'end_array', 'eo': 'end_object', 'emd': 'end_multi_dim'}.get(e[0], e[0]))
+    return ' '.join(out)
+
+
+def tags_sig(r):
+    return {'family': 'tags', 'encoder': r['enc'], 'input': tags_render_ev(r['ev'])[:300], 'dev': ','.join(sorted(r.get('dev') or []))}
+
+
+def tags_case(r):
+    return {'fam': 'tags', 'enc': r['enc'], 'ev': r['ev'], 'v': r['v'], 'right': r['right'], 'dev': r.get('dev') or []}
+
+
+def tags_lines(tr):
+    return [json.dumps({k: v for k, v in r.items() if k not in TAGS_DROP}) for r in tr]
+
+
+def tags_validate_all(lines, timeout=900):
+    """Trace_C08tags in report-all mode (Trace_C08tags_all.cfg): every refused line is printed by the trace spec itself and validation goes on,
+    so the refused lines of the known-deviation classes cost one TLC pass.  Lines are dealt round-robin to the shards.
+    Returns (validated, rejected indices, states)."""
+    from concurrent.futures import ThreadPoolExecutor
+    if not lines:
+        return 0, [], 0
+    n = max(1, min(vf.NCPU, (len(lines) + 199) // 200))
+    d = vf.ensure(os.path.join(vf.WORK, 'run'))
+
+    def shard(i):
+        idxs = list(range(i, len(lines), n))
+        base = os.path.join(d, 'c08tagtrace-%d-%d-%d' % (os.getpid(), i, len(lines)))
+        with open(base + '.ndjson', 'w') as fh:
+            fh.write('\n'.join(lines[j] for j in idxs) + '\n')
+        try:
+            r = vf.tlc('trace/Trace_C08tags', 'trace/Trace_C08tags_all.cfg', workers=1, env={'TRACE': base + '.ndjson'}, out_cases=base + '.rej',
+                       xmx='3g', deque=True, timeout=timeout)
+            m = vf.DEPTH_RE.search(r['tail'])
+            if r['rc'] != 0 or not m or int(m.group(1)) != len(idxs) + 1:
+                raise vf.InfraError('trace validation failed to run (Trace_C08tags):\n%s' % r['tail'][-3000:])
+            rej = sorted({idxs[json.loads(x)['rej'] - 1] for x in open(base + '.rej') if x.strip()})
+            return rej, r['distinct']
+        finally:
+            for ext in ('.ndjson', '.rej'):
+                if os.path.exists(base + ext):
+                    os.unlink(base + ext)
+    with ThreadPoolExecutor(max_workers=n) as ex:
+        res = list(ex.map(shard, range(n)))
+    rejected = sorted(j for rej, _ in res for j in rej)
+    return len(lines) - len(rejected), rejected, sum(st for _, st in res)
+
+
+def tags_family(rep, tier):
+    """tagged scalar events (every semantic tag on every scalar kind, sensible or not), half_value, byte strings with raw (ext) tags, typed arrays
+    of 11 element types, begin_multi_dim / end_multi_dim - alone, in arrays of declared (right / wrong) and undeclared length, as member values -
+    pushed into 8 encoder configurations (harness/c08tags.cpp); every recorded (sequence, encoder, output-or-error) judged by Trace_C08tags"""
+    binary = vf.build('c08tags', ['c08tags.cpp'])
+    g = vf.tlc_gen('gen/MC_C08tags', TAGS[tier], timeout=600)
+    rep.add_tlc(g[1])
+    recs = vf.run_shards(binary, g[0])
+    tr = sorted([r for r in recs if r.get('k') == 'trace'], key=lambda r: (r['enc'], r['idx']))
+
+    def csig(r):
+        c = r.get('case') if isinstance(r.get('case'), dict) else {}
+        return {'what': 'crash', 'family': 'tags', 'input': tags_render_ev(c['ev'])[:300] if 'ev' in c else json.dumps(c)[:200], 'dev': ','.join(sorted(c.get('dev') or []))}
+    vf.g_triage(rep, binary, [r for r in recs if r.get('k') != 'trace'], csig)
+    lines = tags_lines(tr)
+    validated, rejected, states = tags_validate_all(lines)
+    rep.coverage['states'] += states
+    rep.coverage['transitions'] += states
+    for i in rejected:
+        r = tr[i]
+        rep.violation(tags_sig(r), tags_case(r), {'out': r['out'], 'err': r.get('err'), 'bytes': bytes(r['bytes'][:80]).hex(),
+                                                  'text': bytes(r['bytes'][:80]).decode('utf8', 'replace') if r['enc'].startswith('json') else None})
+    cov = rep.coverage
+    cov['traces_validated_against_impl'] += validated
+    cov['evaluations'] += len(lines)
+    cov['tags_family'] = {'cases': g[1]['cases'], 'trace_lines': len(lines), 'accepted': validated, 'refused': len(rejected),
+                          'refused_in_known_deviation_classes': sum(1 for i in rejected if tr[i].get('dev')),
+                          'runs_with_output': sum(1 for r in tr if r['out'] == 'ok'), 'runs_refused': sum(1 for r in tr if r['out'] == 'err'),
+                          'runs_foreign_exception': sum(1 for r in tr if r['out'] == 'foreign'), 'encoders': TAGS_ENCODERS,
+                          'bounds': open(os.path.join(vf.SPEC, TAGS[tier])).read().split('CONSTANTS')[1].split()}
+    cov['rule'] += ('; tagged-events family (spec/gen/MC_C08tags.tla): items = string / byte string / uint64 / int64 / double / half events carrying each of bigint, bigdec, '
+                    'bigfloat, datetime, epoch_second/milli/nano, uri, base16, base64, base64url (contents that keep the tag\'s promise and contents that break it), '
+                    'byte strings with raw (ext) tags 0..2^32, untagged NaN / infinities / -0 / 2^64-1, typed arrays of 11 element types x 0-3 elements, '
+                    'begin_multi_dim / end_multi_dim (row / column major, typed and classical storage); each item alone at the root, in arrays of undeclared / right / '
+                    'too small / too large declared length, as object member value (same four lengths), before / after another item, twice, nested; pairs sharing one '
+                    'string under different tags; every sequence checked against the Events pushdown automaton (extended by the multi_dim frame); x encoders json, '
+                    'jsonpretty, cbor, cbor+pack_strings, cbor+use_typed_arrays, msgpack, ubjson, bson; one trace line per (sequence, encoder)')
+    return validated, len(lines)
 
 
 def run(tier):
@@ -63,6 +200,7 @@ def run(tier):
                    'pretty JSON text; one trace line per (sequence or input, encoder)')
     cov['bounds'] = open(os.path.join(vf.SPEC, CFG[tier])).read().split('CONSTANTS')[1].split()
     cov['samples'] = [json.loads(x) for x in lines[:1]] + [json.loads(lines[-1])]
+    tags_family(rep, tier)
     rep.assumptions += ['only encoders listed in coverage.encoders are judged in this run (MessagePack/UBJSON/BSON join with their reference decoders)',
                         'an encoder refusing a correct sequence is not a violation of C08 as stated (C06 covers successful encoding)']
     return rep.finish(dict(harness='c08'))
@@ -70,6 +208,20 @@ def run(tier):
 
 def replay(path):
     d = json.load(open(path))
+    if d['case'].get('fam') == 'tags' or 'dev' in d['case']:          # tagged-events family (a crash report carries the bare generated case)
+        c = d['case']
+        binary = vf.build('c08tags', ['c08tags.cpp'])
+        recs = vf.run_one(binary, {k: c[k] for k in ('ev', 'v', 'right', 'dev')}, args=['--encoder', c['enc']] if c.get('enc') else [])
+        tr = [r for r in recs if r.get('k') == 'trace']
+        v = vf.validate_traces('trace/Trace_C08tags', 'trace/Trace_C08tags.cfg', tags_lines(tr))
+        for r in tr:
+            print(r['enc'], tags_render_ev(r['ev']), '->', r['out'], r.get('err') or '', bytes(r['bytes'][:80]).hex(),
+                  repr(bytes(r['bytes'][:80]).decode('utf8', 'replace')) if r['enc'].startswith('json') else '')
+        if v['rejected'] or not tr or any(r.get('k') in ('terminate', 'signal', 'crash') for r in recs):
+            print('VIOLATION property=%s replay=%s' % (PROP, path))
+            return 1
+        print('accepted by the trace spec on this tree')
+        return 0
     binary = vf.build('c08', ['c08.cpp'])
     recs = vf.run_one(binary, d['case'])
     tr = [r for r in recs if r.get('k') == 'trace' and r.get('enc') in ENCODERS + ['transcode-json']]
